@@ -572,6 +572,20 @@ pub fn subs_for(id: &str) -> Vec<Sub> {
         "C02" => vec![sub(
             lp(
                 "C02",
+                "c02-layout-very-wide",
+                "very-wide class with dependencies: up to 150 mostly independent systems (stages with more than 64 groups), a quarter of them depending on earlier ones",
+                GenCfg {
+                    p_dep: 4,
+                    ..very_wide_cfg()
+                },
+                2500,
+                p_layout::o_c02,
+            ),
+            4_000,
+            100_000,
+        ), sub(
+            lp(
+                "C02",
                 "c02-layout-long",
                 "long class: up to 150 registrations per builder (system ids beyond 64 and 128) with dependencies on early and late systems over mostly unrelated resources",
                 long_cfg(),
@@ -988,6 +1002,10 @@ pub fn sched_subs_for(id: &str) -> Vec<Sub> {
             )
           },
           Sub {
+            max_lanes: 8,
+            ..sub(p_misc::C04BigPlan, 160, 4_000)
+          },
+          Sub {
             max_lanes: 4,
             ..sub(
                 p_misc::C04Two {
@@ -1138,6 +1156,24 @@ pub fn sched_subs_for(id: &str) -> Vec<Sub> {
                 },
                 40_000,
                 600_000,
+            ),
+            sched_sub(
+                p_sched::SchedProp {
+                    thread_choices: vec![2, 4, 8, 16],
+                    max_repeats: 2,
+                    ..sp(
+                        "C05",
+                        "c05-differential-many-resources",
+                        "many-resources class (up to 95 distinct resources in one builder of up to 40 systems), free run with jitter and maximal overlap, compared with the sequential result",
+                        many_resources_cfg(),
+                        vec![Want::Differential],
+                        vec![Dispatch, Par],
+                        vec![2, 1],
+                        p_sched::nt_differential,
+                    )
+                },
+                6_000,
+                150_000,
             ),
         ],
         "C13" => vec![sub(
